@@ -530,6 +530,8 @@ class ExprMixin:
                 return self.val_eq(self.from_term(a.t, a.sort, st), self.from_term(b.t, b.sort, st), st)
             if ka == "ostr" and kb == "ostr":
                 return a.t == b.t
+            if ka == "dict" and kb == "dict":
+                return a.t == b.t if a.sort == b.sort else z3.BoolVal(False)
             if ka == "opaque" and kb == "opaque":
                 return a.t == b.t if a.sort == b.sort else z3.BoolVal(False)
             if {ka, kb} <= {"int", "bool", "real"}:
